@@ -17,13 +17,13 @@ BOUNDS = {
     "quick": "event sequences of length <= 4 after connect over {CHALLENGE, WELCOME, ABORT, GOODBYE, illegal message (5 kinds), local leave, local disconnect, transport loss}; pending requests of all 6 kinds present or not; user callbacks onJoin/onLeave/onChallenge/onWelcome/onDisconnect raising or not (one at a time); a second session joined on the same transport",
     "thorough": "sequences of length <= 5 (length 6 was measured: > 4.4 million paths, over the 40 min budget), one raising callback at a time, pending requests together with each raising callback",
 }
-EXPECT_COVERS = ["end:goodbye-by-router", "end:goodbye-by-us", "end:abort", "end:transport-lost-joined", "end:transport-lost-unjoined", "illegal:ProtocolError", "pending:errbacked", "after:raises", "rejoin"]
+EXPECT_COVERS = ["react:retry", "end:goodbye-by-router", "end:goodbye-by-us", "end:abort", "end:transport-lost-joined", "end:transport-lost-unjoined", "illegal:ProtocolError", "pending:errbacked", "after:raises", "rejoin"]
 BUDGET = {"quick": dict(wall_s=300, max_paths=40000, diff_samples=4), "thorough": dict(wall_s=2400, max_paths=400000)}
 
 MENU = ["challenge", "welcome", "abort", "goodbye", "illegal", "leave", "disconnect", "lost"]
 
 
-def _populate(s, t, message, types):
+def _populate(s, t, message, types, react=None):
     """one pending request of each kind; returns {name: Outcome}"""
     fired = []
     outs = {}
@@ -34,7 +34,18 @@ def _populate(s, t, message, types):
     d = s.register(lambda *a, **k: None, "com.pre.p")
     s.onMessage(message.Registered(t.sent[-1].request, 600))
     reg = d.result
-    outs["call"] = wamplib.Outcome("call", s.call("com.p"), fired)
+    dcall = s.call("com.p")
+    if react == "retry":
+        # an application that retries a failed call from its errback (while the session is being torn down the new request must fail too -
+        # at once or through its own Deferred - never stay pending)
+        def retry(f):
+            try:
+                outs["retry"] = wamplib.Outcome("retry", s.call("com.p.retry"), fired)
+            except Exception as e:  # noqa
+                outs["retry-raised"] = e
+            return f
+        dcall.addErrback(retry)
+    outs["call"] = wamplib.Outcome("call", dcall, fired)
     outs["publish"] = wamplib.Outcome("publish", s.publish("com.t", 1, options=types.PublishOptions(acknowledge=True)), fired)
     outs["subscribe"] = wamplib.Outcome("subscribe", s.subscribe(lambda: None, "com.t2"), fired)
     outs["register"] = wamplib.Outcome("register", s.register(lambda: None, "com.p2"), fired)
@@ -43,14 +54,16 @@ def _populate(s, t, message, types):
     return outs
 
 
-def lifecycle(sx, K, populate, raising, first):
+def lifecycle(sx, K, populate, raising, first, react=None):
     from autobahn.wamp import message, role, types
     from autobahn.wamp.exception import ProtocolError, TransportLost, ApplicationError
     from symx.env import Trace
     clock = wamplib.setup()
     trace = Trace()
-    s = wamplib.make_session(sx, trace, raising={raising: True} if raising else None,
-                             cls_attrs=dict(onChallenge=_mk_on_challenge(trace, raising == "onChallenge"), onWelcome=_mk_on_welcome(trace, raising == "onWelcome")))
+    attrs = dict(onChallenge=_mk_on_challenge(trace, raising == "onChallenge"), onWelcome=_mk_on_welcome(trace, raising == "onWelcome"))
+    if react == "leave":
+        attrs["onLeave"] = _mk_on_leave_calling_leave(trace)
+    s = wamplib.make_session(sx, trace, raising={raising: True} if raising else None, cls_attrs=attrs)
     t = wamplib.MockTransport(trace)
     t.session = s
     s.onOpen(t)
@@ -116,7 +129,7 @@ def lifecycle(sx, K, populate, raising, first):
                         phase = "joined"
                         joined_once = True
                         if populate:
-                            outs = _populate(s, t, message, types)
+                            outs = _populate(s, t, message, types, react)
                 elif ev == "abort":
                     phase = "left"
                     expect_leave += 1
@@ -186,6 +199,10 @@ def lifecycle(sx, K, populate, raising, first):
     sx.check(len([m for m in t.sent if isinstance(m, message.Goodbye)]) <= 1, "at-most-one-GOODBYE-sent", info=info)
     # ---- nothing left pending
     if outs:
+        if react == "retry":
+            sx.check("retry" in outs or "retry-raised" in outs, "errback-of-the-pending-call-ran", info=info)
+            outs.pop("retry-raised", None)
+            sx.cover("react:retry")
         for n, o in outs.items():
             sx.check(len(o.results) == 1 and o.results[0][0] == "err", "pending-request-completed-with-error", info=dict(info, request=n, results=repr(o.results)))
         sx.cover("pending:errbacked")
@@ -213,6 +230,19 @@ def _mk_on_challenge(trace, raises):
             raise RuntimeError("user onChallenge fails")
         return "signature"
     return onChallenge
+
+
+def _mk_on_leave_calling_leave(trace):
+    def onLeave(self, details):
+        # an application that says goodbye itself whenever it is told the session is over and the transport is still there
+        trace.append(("S", "onLeave", details.reason))
+        if self._transport is not None:
+            try:
+                self.leave()
+            except Exception:  # noqa
+                pass
+        self.disconnect()
+    return onLeave
 
 
 def _mk_on_welcome(trace, raises):
@@ -270,6 +300,9 @@ def units(tier):
                     continue
                 U.append(("life/%s/%s/%s" % (first, "pend" if populate else "-", raising or "-"), "lifecycle",
                           dict(K=K, populate=populate, raising=raising, first=first), dict(weight=4 if first == "welcome" else 2)))
+    for first in ("welcome",):
+        for react in ("retry", "leave"):
+            U.append(("react/%s/%s" % (first, react), "lifecycle", dict(K=K, populate=True, raising=None, first=first, react=react), dict(weight=4)))
     for a in ("us", "router"):
         for b in ("router-goodbye", "leave"):
             U.append(("rejoin/%s/%s" % (a, b), "rejoin", dict(who_closes_first=a, second=b)))
